@@ -151,6 +151,9 @@ type Run struct {
 	oblSeen   map[string]int
 	allocRefs map[string]bool
 	mu        sync.Mutex
+	cbs       map[string]*cbRec // write callbacks installed by the function under verification (bitswriter.go)
+	cbOrder   []string
+	inCb      bool
 	faults    bool // BitsWriter model: sink writes may fail (C18); otherwise they succeed and contents are exact
 }
 
